@@ -47,6 +47,9 @@ class Prop(WalletProp):
         for iv in ((H - 2, H), (H - 1, H + 1), (H, H + 1), (H + 1, H - 2, -1), (H, H - 3, -1), (H - 1, H - 4, -1), (0, 3), (3, 0, -1),
                    (H - 2, H + 3, 2), (H + 5, H + 1, -2), (2 ** 32 - 1, 2 ** 32), (0, 0), (5, 2)):
             cases.append({"kind": "WatchGen", "w": w, "export": [84 + H, H, H], "v": PUBV[False][0], "sub": [0], "interval": list(iv)})
+        # the sub-path handed to derive_path as a tuple / one-shot iterable instead of a list
+        for form in ("iter", "gen", "tuple", "map"):
+            cases.append({"kind": "Watch", "w": w, "export": [84 + H, H, H], "v": PUBV[False][0], "sub": [0, 3], "path_form": form})
         w = self.rand_wspec(rng, False)
         for sub in ([H], [0, H + 1], [2 ** 32 - 1]):
             cases.append({"kind": "Watch", "w": w, "export": [44 + H, H, H], "v": PUBV[False][0], "sub": sub})
